@@ -241,4 +241,219 @@ mutual
       ⟨a.nullable || b.nullable, a.first ||| b.first, a.last ||| b.last, a.follow ||| b.follow⟩
 end
 
+
+/-! ## The lexer
+
+    The same comparison for `OpenFGALexer.g4` and the lexer ATN.  Symbols are characters and references
+    to other lexer rules (fragments and token rules).  Character sets are evaluated on a sample
+    alphabet: every ASCII code point and nine code points beyond (128, 255, 256, 0x2028, 0xD7FF,
+    0xE000, 0xFFFF, 0x10000, 0x10FFFF); `sets_are_ascii_or_cofinite` (Props/C19) shows that every set of
+    the automaton has all its interval bounds below 128 or at 0x10FFFF, so the samples beyond ASCII stand
+    for all of their kind. -/
+
+inductive LGram where
+  | set (iv : List (Nat × Nat)) (neg : Bool)
+  | any
+  | ref (name : String)
+  | seq (xs : List LGram)
+  | alt (xs : List LGram)
+  | opt (g : LGram)
+  | star (g : LGram)
+  | plus (g : LGram)
+  deriving Repr, Inhabited
+
+structure LexRule where
+  name : String
+  fragment : Bool
+  mode : String
+  body : LGram
+  commands : List (String × String)
+  deriving Repr, Inhabited
+
+structure LexAtn where
+  base : Atn
+  ruleTokenType : List Nat
+  modeStart : List Nat
+  actions : List (Nat × Nat × Nat)
+  deriving Repr, Inhabited
+
+def readPairs : Nat → List Int → List (Nat × Nat) → Option (List (Nat × Nat) × List Int)
+  | 0, rest, acc => some (acc.reverse, rest)
+  | n+1, a :: b :: rest, acc => readPairs n rest ((nat a, if b == 65535 then 0 else nat b) :: acc)
+  | _+1, _, _ => none
+
+def readTriples : Nat → List Int → List (Nat × Nat × Nat) → Option (List (Nat × Nat × Nat) × List Int)
+  | 0, rest, acc => some (acc.reverse, rest)
+  | n+1, a :: b :: c :: rest, acc => readTriples n rest ((nat a, nat b, nat c) :: acc)
+  | _+1, _, _ => none
+
+/-- lexer ATN (grammar type 0) -/
+def deserializeLexer (xs : List Int) : Option LexAtn :=
+  match xs with
+  | 4 :: 0 :: maxTok :: nstates :: rest =>
+    match readStates (nat nstates) rest [] [] with
+    | none => none
+    | some (srule, stype, rest) =>
+      match rest with
+      | nng :: rest =>
+        match readList (nat nng) rest [] with
+        | none => none
+        | some (_, rest) =>
+          match rest with
+          | np :: rest =>
+            match readList (nat np) rest [] with
+            | none => none
+            | some (_, rest) =>
+              match rest with
+              | nr :: rest =>
+                match readPairs (nat nr) rest [] with
+                | none => none
+                | some (rulePairs, rest) =>
+                  match rest with
+                  | nm :: rest =>
+                    match readList (nat nm) rest [] with
+                    | none => none
+                    | some (modes, rest) =>
+                      match rest with
+                      | ns :: rest =>
+                        match readSets (nat ns) rest [] with
+                        | none => none
+                        | some (sets, rest) =>
+                          match rest with
+                          | ne :: rest =>
+                            match readEdges (nat ne) rest [] with
+                            | none => none
+                            | some (edges, rest) =>
+                              match rest with
+                              | nd :: rest =>
+                                match readList (nat nd) rest [] with
+                                | none => none
+                                | some (_, rest) =>
+                                  match rest with
+                                  | na :: rest =>
+                                    match readTriples (nat na) rest [] with
+                                    | none => none
+                                    | some (actions, _) =>
+                                      some { base := { maxTok := nat maxTok, stateRule := srule, stateType := stype,
+                                                       ruleStart := rulePairs.map (·.1), sets := sets, edges := edges },
+                                             ruleTokenType := rulePairs.map (·.2), modeStart := modes, actions := actions }
+                                  | [] => none
+                              | [] => none
+                          | [] => none
+                      | [] => none
+                  | [] => none
+              | [] => none
+          | [] => none
+      | [] => none
+  | _ => none
+
+def extraSamples : List Nat := [128, 255, 256, 0x2028, 0xD7FF, 0xE000, 0xFFFF, 0x10000, 0x10FFFF]
+
+/-- the sample characters inside the intervals, as a bit set (ASCII code point `c` is bit `c`; the
+    j-th extra sample is bit `128 + j`) -/
+def sampleMask (iv : List (Nat × Nat)) : Nat :=
+  iv.foldl (fun acc (a, b) =>
+    let ascii := if a ≤ 127 then intervalMask a (min b 127) else 0
+    let extra := (List.range extraSamples.length).foldl (fun m j =>
+      let c := (extraSamples[j]?).getD 0
+      if a ≤ c && c ≤ b then m ||| bit (128 + j) else m) 0
+    acc ||| ascii ||| extra) 0
+
+def allSamples : Nat := sampleMask [(0, 0x10FFFF)]
+def lexRuleBit (r : Nat) : Nat := bit (160 + r)
+def bitsOf256 (s : Nat) : List Nat := (List.range 256).filter (fun i => s.testBit i)
+def cross256 (xs ys : Nat) : Nat := (bitsOf256 xs).foldl (fun acc x => acc ||| (ys <<< (x * 256))) 0
+
+def lexEdgeSyms (a : Atn) (e : Edge) : Nat :=
+  match e.ty with
+  | 5 => sampleMask [(e.a1, e.a1)]
+  | 2 => sampleMask [(e.a1, e.a2)]
+  | 7 => sampleMask ((a.sets[e.a1]?).getD [])
+  | 8 => allSamples ^^^ sampleMask ((a.sets[e.a1]?).getD [])
+  | 9 => allSamples
+  | 3 => lexRuleBit e.a2
+  | _ => 0
+
+def lexNextSyms (a : Atn) (es : List Edge) (s : Nat) : Nat :=
+  let cl := closureOf es s
+  es.foldl (fun acc e => if cl.contains e.src then acc ||| lexEdgeSyms a e else acc) 0
+
+def lexAtnLocal (a : Atn) (r : Nat) : Local :=
+  match a.ruleStart[r]?, ruleStop a r with
+  | some start, some stop =>
+    let es := ruleEdges a r
+    let symEdges := es.filter (fun e => lexEdgeSyms a e != 0)
+    { nullable := (closureOf es start).contains stop,
+      first := lexNextSyms a es start,
+      last := symEdges.foldl (fun acc e => if (closureOf es e.trg).contains stop then acc ||| lexEdgeSyms a e else acc) 0,
+      follow := symEdges.foldl (fun acc e => acc ||| cross256 (lexEdgeSyms a e) (lexNextSyms a es e.trg)) 0 }
+  | _, _ => { nullable := false, first := 0, last := 0, follow := 1 }
+
+mutual
+  def lexResolve (rules : List String) : LGram → NGram
+    | .set iv neg => .sym (if neg then allSamples ^^^ sampleMask iv else sampleMask iv)
+    | .any => .sym allSamples
+    | .ref n => .sym (lexRuleBit (idxOf rules n))
+    | .opt g => .opt (lexResolve rules g)
+    | .star g => .star (lexResolve rules g)
+    | .plus g => .plus (lexResolve rules g)
+    | .seq xs => .seq (lexResolveL rules xs)
+    | .alt xs => .alt (lexResolveL rules xs)
+  def lexResolveL (rules : List String) : List LGram → List NGram
+    | [] => []
+    | g :: gs => lexResolve rules g :: lexResolveL rules gs
+end
+
+mutual
+  def gramLocal256 : NGram → Local
+    | .sym s => ⟨false, s, s, 0⟩
+    | .opt g => let l := gramLocal256 g; ⟨true, l.first, l.last, l.follow⟩
+    | .star g => let l := gramLocal256 g; ⟨true, l.first, l.last, l.follow ||| cross256 l.last l.first⟩
+    | .plus g => let l := gramLocal256 g; ⟨l.nullable, l.first, l.last, l.follow ||| cross256 l.last l.first⟩
+    | .seq xs => seqLocal256 xs
+    | .alt xs => altLocal256 xs
+  def seqLocal256 : List NGram → Local
+    | [] => ⟨true, 0, 0, 0⟩
+    | g :: gs =>
+      let a := gramLocal256 g
+      let b := seqLocal256 gs
+      ⟨a.nullable && b.nullable,
+       a.first ||| (if a.nullable then b.first else 0),
+       b.last ||| (if b.nullable then a.last else 0),
+       a.follow ||| b.follow ||| cross256 a.last b.first⟩
+  def altLocal256 : List NGram → Local
+    | [] => ⟨false, 0, 0, 0⟩
+    | g :: gs =>
+      let a := gramLocal256 g
+      let b := altLocal256 gs
+      ⟨a.nullable || b.nullable, a.first ||| b.first, a.last ||| b.last, a.follow ||| b.follow⟩
+end
+
+/-- the lexer commands of rule `r` in the automaton: (action type, argument), sorted -/
+def atnCommands (l : LexAtn) (r : Nat) : List Nat :=
+  insertionSort (fun a b => a ≤ b) (((ruleEdges l.base r).filter (fun e => e.ty == 6)).map (fun e =>
+    match l.actions[e.a2]? with
+    | some (t, d1, _) => t * 1000 + (if d1 == 65535 then 0 else d1)
+    | none => 999999))
+
+/-- the commands a grammar rule declares, encoded the same way -/
+def gramCommands (symbolic modes : List String) (cmds : List (String × String)) : List Nat :=
+  insertionSort (fun a b => a ≤ b) (cmds.map (fun (c, arg) =>
+    if c == "channel" then 0 * 1000 + (if arg == "HIDDEN" then 1 else 0)
+    else if c == "mode" then 2 * 1000 + idxOf modes arg
+    else if c == "more" then 3 * 1000
+    else if c == "popMode" then 4 * 1000
+    else if c == "pushMode" then 5 * 1000 + idxOf modes arg
+    else if c == "skip" then 6 * 1000
+    else if c == "type" then 7 * 1000 + idxOf symbolic arg
+    else 999998))
+
+/-- the token rules of a mode in the automaton, in priority order: the targets of the epsilon edges
+    that leave the mode's start state, as rule indices -/
+def atnModeRules (l : LexAtn) (m : Nat) : List Nat :=
+  match l.modeStart[m]? with
+  | none => []
+  | some s => ((l.base.edges.filter (fun e => e.src == s && e.ty == 1)).map (fun e =>
+      (l.base.ruleStart.findIdx? (· == e.trg)).getD 9999))
+
 end FgaVerif.Model.AtnGraph
